@@ -55,7 +55,7 @@ COMPONENTS = {
 }
 ASSUMPTIONS = [
     "no ghost left-hand parents (revision numbers are undefined there); ghosts occur as right-hand parents only",
-    "before: of a parentless revision may answer null: or refuse (both documented); revid:/tag: of a revision outside the tip's ancestry, last:n beyond the history and ancestor: with several LCAs are resolved but only weakly judged (any common ancestor) or not judged",
+    "before: of a parentless revision may answer null: or refuse (both documented); revid:/tag: of a revision outside the tip's ancestry, last:n beyond the history and ancestor: with several LCAs are resolved but only weakly judged (any common ancestor; a refusal is accepted too when those LCAs share no ancestor, because find_unique_lca is documented to reduce 'LCAs of the LCAs' down to the graph origin and ancestor: then reports NoCommonAncestor) or not judged",
     "an error is 'the documented refusal' when it is a BzrError / vcsgraph error; the class is not compared",
     "caches live only while the object is locked (unlock clears them); 'warm' therefore means a locked object",
 ]
@@ -363,7 +363,12 @@ def ev(term, st, ctx):
             return ("err",)
         if len(lcas) == 1:
             return ("rev", next(iter(lcas)))
-        return ("oneof", gm.ancestry(st.tip) & gm.ancestry(st.other))
+        common = gm.ancestry(st.tip) & gm.ancestry(st.other)
+        if gm.iterated_unique_lca(st.tip, st.other) is None:
+            # several LCAs that share no ancestor (criss-cross over unrelated roots): the documented
+            # reduction of find_unique_lca ends at the graph origin and the specifier refuses
+            return ("oneof_or_err", common)
+        return ("oneof", common)
     if k == "before":
         e = ev(term[1], st, ctx)
         if e[0] == "rev":
@@ -526,6 +531,9 @@ def execute(sim, plan):
         elif exp[0] == "null_or_err":
             if got[0] == "ok" and got[1] != NULL:
                 fail(oracle, site, f"{show}: expected null: or a refusal, got {got[1]}")
+        elif exp[0] == "oneof_or_err":
+            if got[0] == "ok" and got[1] not in exp[1]:
+                fail(oracle, site, f"{show}: expected one of {sorted(exp[1])} or a refusal, got {got[1]}")
         elif exp[0] == "oneof":
             if got[0] != "ok" or got[1] not in exp[1]:
                 fail(oracle, site, f"{show}: expected one of {sorted(exp[1])} got {got}")
